@@ -47,31 +47,43 @@ def lenFilter (len : Nat) : Bool := len < 4 || len > 9 || len == 6 || len == 8
 def copyLabel (cp : List Nat) (len : Nat) : Except Fault (List Nat) :=
   if len + 1 > Lim.LABEL_SIZE then .error .overflow else .ok (cp.take len)
 
+/-- the `if (len == 7) { … }` block: is the pair (second-to-last, last) `example.{com,net,org}`?
+`cp` points at the second-to-last label, `rest` behind its dot. -/
+def exampleHit (cp rest : List Nat) : Except Fault Bool :=
+  if (upToDot cp).length == 7 then
+    match copyLabel cp 7 with
+    | .error e => .error e
+    | .ok label =>
+      if strncaseeq exampleLabel label 8 then
+        if (upToDot rest).length == 3 then
+          match copyLabel rest 3 with
+          | .error e => .error e
+          | .ok l3 => .ok (checkTable exampleTable l3)
+        else .ok false
+      else .ok false
+  else .ok false
+
+/-- "check only the last label" -/
+def lastLabelHit (rest : List Nat) : Except Fault Bool :=
+  if lenFilter (upToDot rest).length then .ok false
+  else match copyLabel rest (upToDot rest).length with
+    | .error e => .error e
+    | .ok l => .ok (checkTable reservedTable l)
+
 def isSpecialDomain (s : List Nat) : Except Fault Bool :=
-  let count := countDots s
-  if count == 0 then
+  if countDots s == 0 then
     if lenFilter s.length then .ok false else .ok (checkTable reservedTable s)
   else
     -- `if (end[-1] == '.') --count;`   (count ≥ 1, so `s` is not empty)
-    let count := if s.getLast? == some 46 then count - 1 else count
-    match skipLabels count s with
+    match skipLabels (if s.getLast? == some 46 then countDots s - 1 else countDots s) s with
     | none => .error .oob
     | some cp =>
       match afterDot cp with                  -- `ch = strchr (cp, '.')`, `len = ch - cp`
       | none => .error .oob
-      | some rest => do
-        let first := upToDot cp
-        if first.length == 7 then
-          let label ← copyLabel cp 7
-          if strncaseeq exampleLabel label 8 then
-            let tld := upToDot rest
-            if tld.length == 3 then
-              let l3 ← copyLabel rest 3
-              if checkTable exampleTable l3 then return true
-        -- check only the last label
-        let last := upToDot rest
-        if lenFilter last.length then return false
-        let l ← copyLabel rest last.length
-        return checkTable reservedTable l
+      | some rest =>
+        match exampleHit cp rest with
+        | .error e => .error e
+        | .ok true => .ok true
+        | .ok false => lastLabelHit rest
 
 end Eav
